@@ -63,10 +63,19 @@ class ReplaySlice:
         changed = True
         while changed:
             changed = False
+            params0 = set(p.lstrip("*") for p in param_names(fn))
             for name, v, st in assignments(fn, nested=True):
                 if name not in self.notnone and self._notnone_expr(v):
-                    # every assignment of the name must be not-None
-                    if all(self._notnone_expr(v2) for n2, v2, _ in assignments(fn, nested=True) if n2 == name):
+                    # every assignment of the name must be not-None (`x = x` binds nothing new); a PARAMETER also has the value it
+                    # was called with, so a plain assignment counts only as the None-case of `if x is None: x = …`
+                    mine = [(v2, st2) for n2, v2, st2 in assignments(fn, nested=True) if n2 == name and not (isinstance(v2, ast.Name) and v2.id == name)]
+
+                    def fills_none(st2, v2):
+                        if isinstance(strip_casts(v2), ast.IfExp):
+                            return True   # shape checked by _notnone_expr
+                        par = P.parent(st2)
+                        return isinstance(par, ast.If) and st2 in par.body and norm(par.test) == f"{name} is None"
+                    if mine and all(self._notnone_expr(v2) for v2, _ in mine) and (name not in params0 or all(fills_none(st2, v2) for v2, st2 in mine)):
                         self.notnone.add(name)
                         changed = True
         if not present:
@@ -132,6 +141,11 @@ class ReplaySlice:
             if (isinstance(t, ast.Compare) and len(t.ops) == 1 and isinstance(t.ops[0], ast.IsNot) and is_const(t.comparators[0], None)
                     and norm(t.left) == norm(v.body)):
                 return self._notnone_expr(v.orelse)
+            if (isinstance(t, ast.Compare) and len(t.ops) == 1 and isinstance(t.ops[0], ast.Is) and is_const(t.comparators[0], None)
+                    and norm(t.left) == norm(v.orelse)):
+                return self._notnone_expr(v.body)   # `Y if X is None else X`
+            if isinstance(t, ast.UnaryOp) and isinstance(t.op, ast.Not):
+                return self._notnone_expr(ast.IfExp(test=t.operand, body=v.orelse, orelse=v.body))
             return self._notnone_expr(v.body) and self._notnone_expr(v.orelse)
         return False
 
